@@ -160,6 +160,15 @@ SPECS = {
         ("pressure_thickness_dropped", SIMU, "            magnitude *= self.model.thickness\n", "            magnitude *= 1.0\n"),
         ("beam_hermitian_load_wrong_row", R + "Simulations/_beam.py", "                N_e_pg[:, :, row, :],", "                N_e_pg[:, :, min(row, 1), :],"),
     ],
+    "C10": [
+        ("beam_P_not_transposed", ELBEAM, "            P[elems] = beam._Calc_P().T\n", "            P[elems] = beam._Calc_P()\n"),
+        ("pmat_D2_3d_entry", MUT, "                [p21 * p33 + p31 * p23, p11 * p33 + p31 * p13, p11 * p23 + p21 * p13],  # type: ignore", "                [p21 * p33 + p31 * p23, p11 * p33 - p31 * p13, p11 * p23 + p21 * p13],  # type: ignore"),
+        ("beam_yaxis_handedness", R + "Models/Beam/_beam.py", "        k = Normalize(np.cross(i, j))\n\n        J = np.array([i, j, k]).T", "        k = Normalize(np.cross(j, i))\n\n        J = np.array([i, j, k]).T"),
+        ("timoshenko_shear_sign_3d", ELBEAM, "            B_e_pg[:, :, 5, idx_ry] += Nu_pg  # +ry", "            B_e_pg[:, :, 5, idx_ry] -= Nu_pg  # +ry"),
+    ],
+    "C11": [
+        ("pmat_2d_B_entry", MUT, "        B = np.array([[p11 * p12, p21 * p22]])", "        B = np.array([[p11 * p12, p21 * p12]])"),
+    ],
 }
 
 
